@@ -455,9 +455,68 @@ def tf_tick(t):
     return float(F(t, TICKS_PER_S))
 
 
+FINE = 2.0 ** -22            # mode 'fine': 1 tick = 2^-22 s = 0.238 us; every value used is an exact binary64
+
+
+def tf_fine(t):
+    return float(t) * FINE
+
+
+def ct_fine(i, x, what, due=None):
+    v = x * 2.0 ** 22
+    assert v == int(v), x
+    return int(v)
+
+
+FINER = 2.0 ** -25           # mode 'finer': 1 tick = 2^-25 s = 0.0298 us (exact up to 2^28 s)
+
+
+def tf_finer(t):
+    return float(t) * FINER
+
+
+def ct_finer(i, x, what, due=None):
+    v = x * 2.0 ** 25
+    assert v == int(v), x
+    return int(v)
+
+
+def tf_of(mode):
+    return float if mode == 'int' else tf_fine if mode == 'fine' else tf_finer if mode == 'finer' else tf_tick
+
+
+def boundary_histories():
+    """never-early probes: the clock strictly inside the last microseconds before a due time (t - 1.43 us ... t - 0.03 us,
+    including ~t-1e-6, ~t-5e-7, ~t-1e-7), on it and after it; a second task due 0 .. 2 us later, observed between
+    the two due times; clocks 0, 1000 s and (2^-22 unit only) 1.7e9 s.  All floats exact."""
+    out = []
+    for mode, unit_bases, probes, gaps in (
+            ('fine', (0, 1000 * 2 ** 22, 1700000000 * 2 ** 22), (6, 5, 4, 3, 2, 1), (0, 1, 3, 4, 5, 9)),
+            ('finer', (0, 1000 * 2 ** 25, 2 ** 27 * 2 ** 25), (40, 34, 33, 17, 7, 3, 1), (0, 1, 3, 7, 17, 33, 34, 67))):
+        for base in unit_bases:
+            for gap in gaps:
+                due = base + 100
+                ops = [('advance', base), ('install', 0, due), ('install', 1, due + gap)]
+                now = base
+                for k in probes:                      # before the first due time
+                    ops += [('advance', due - k - now), ('poll',), ('runonce',)]
+                    now = due - k
+                ops += [('advance', due - now), ('runonce',)]
+                now = due
+                if gap > 1:                           # strictly between the two due times
+                    mid = due + gap // 2
+                    ops += [('advance', mid - now), ('poll',), ('run',)]
+                    now = mid
+                    ops += [('advance', due + gap - 1 - now), ('runonce',)]
+                    now = due + gap - 1
+                ops += [('advance', due + gap - now), ('poll',), ('runonce',), ('advance', 50), ('run',)]
+                out.append(([ONE, ONE], ops, mode))
+    return out
+
+
 def impl_outcome(cfg, ops, mode):
     """mode: 'int' (clock in whole seconds = ticks), 'tick' (1/3 us ticks), 'slot' (same, shown as slot indices)"""
-    im = Impl(cfg, float if mode == 'int' else tf_tick)
+    im = Impl(cfg, tf_of(mode))
     try:
         for o in ops:
             im.step(o)
@@ -465,7 +524,7 @@ def impl_outcome(cfg, ops, mode):
         if HANGS[0] >= 3:
             raise
         return [99], im
-    ct = ct_int if mode == 'int' else ct_tick if mode == 'tick' else make_ct_slot(cfg)
+    ct = ct_int if mode == 'int' else ct_fine if mode == 'fine' else ct_finer if mode == 'finer' else ct_tick if mode == 'tick' else make_ct_slot(cfg)
     tasks = [(t.isScheduled, t.taskTime) for t in im.tasks]
     return canon_outcome(im.trace, im.heap_sorted(), im.counter_value(), im.NOW[0], tasks, im.pending_ids(), ct,
                          mode != 'slot'), im
@@ -551,6 +610,8 @@ def desc_of(cfg, ops, mode):
 
 def nontrivial(out):
     # at least one fire / call event in the trace
+    if out == [99]:                      # a library loop did not return: certainly worth looking at
+        return True
     n, k, i = out[0], 0, 1
     while k < n:
         tag = out[i]
@@ -696,7 +757,7 @@ def gen_recurring(rng, epoch, nops=30, with_acts=False):
         iv = rng.choice(IV_GRID_MS) * TICKS_PER_S / 1000
         assert iv.denominator == 1
         iv = int(iv)
-        off = rng.choice([0, 0, iv // 3, iv // 2, iv - 3000, rng.randrange(iv)])
+        off = rng.choice([0, 0, iv // 3, iv // 2, iv - 3000, rng.randrange(iv), iv + iv // 3, 2 * iv + 5000])
         acts = ()
         if with_acts and rng.random() < 0.7:
             acts = tuple(rng.choice([('suspend', i), ('suspend', i), ('reinstall', i), ('suspend', rng.randrange(nt)),
@@ -707,10 +768,11 @@ def gen_recurring(rng, epoch, nops=30, with_acts=False):
     ref = Ref(cfg, JIT_B)
     ops = []
 
-    def safe_now(t):
-        # the task whose own due time the clock is moved onto (ToDue) is exempt: the library then
-        # compares a float with itself
-        owner = ref.heap[0][2] if ref.heap and ref.heap[0][0] == t else None
+    def safe_now(t, todue=False):
+        # the task whose own due time the clock is moved onto by ToDue is exempt: the library then
+        # compares a float with itself.  An `advance` that lands exactly on a due time is not (the
+        # clock float is then computed along another path than the due float).
+        owner = ref.heap[0][2] if todue and ref.heap and ref.heap[0][0] == t else None
         for (w, n, i) in ref.heap:
             if i != owner and abs(w - t) < MARGIN:
                 return False
@@ -743,7 +805,7 @@ def gen_recurring(rng, epoch, nops=30, with_acts=False):
         elif r < 0.32: push(('suspend', i))
         elif r < 0.37: push(('resume', i))
         elif r < 0.62:
-            if ref.heap and not safe_now(max(ref.now, ref.heap[0][0])):
+            if ref.heap and not safe_now(max(ref.now, ref.heap[0][0]), todue=True):
                 return None
             push(('todue',))
             push(rng.choice([('poll',), ('runonce',), ('poll',), ('run',)]))
@@ -888,13 +950,13 @@ def impl_state_key(im):
     return (tuple(sorted(sig)), tuple(im.pending_ids()))
 
 
-def explore(cfg, depth, reps=1):
+def explore(cfg, depth, reps=1, mode='int'):
     """breadth-first over the implementation's own states; returns {state key: [representative histories]}
     for every state reachable by <= depth letters"""
     alpha = rel_alphabet(len(cfg))
 
     def run(seq):
-        im = Impl(cfg, float)
+        im = Impl(cfg, tf_of(mode))
         for o in resolve_rel(seq):
             im.step(o)
         return im
@@ -915,24 +977,24 @@ def explore(cfg, depth, reps=1):
     return seen
 
 
-def symmetric_cases(cfg, depth, kind, reps=1):
+def symmetric_cases(cfg, depth, kind, reps=1, mode='int'):
     """one packed case per (state, representative): the representative history followed by every letter"""
     out = []
     alpha = rel_alphabet(len(cfg))
-    states = explore(cfg, depth, reps)
+    states = explore(cfg, depth, reps, mode)
     for key, seqs in states.items():
         for seq in seqs:
             exp = []
             coq_parts = []
             for o in alpha:
                 ops = resolve_rel(list(seq) + [o]) + FLUSH
-                e, _ = impl_outcome(cfg, ops, 'int')
+                e, _ = impl_outcome(cfg, ops, mode)
                 exp += e
                 coq_parts.append(coq_ops(ops))
             coq = 'flat_map (fun ops => canon_run tc_id true %d (run_ops true 1 %s st0 ops)) [%s]' % (
                 len(cfg), coq_cfg(cfg), ';'.join(coq_parts))
-            out.append(Case(kind, coq, exp, key=(repr(cfg), repr(seq), 'sym'), nontrivial=True,
-                            desc={'cfg': repr(cfg), 'prefix': repr(resolve_rel(seq)), 'mode': 'int', 'packed_over': 'rel-alphabet',
+            out.append(Case(kind, coq, exp, key=(repr(cfg), repr(seq), 'sym', mode), nontrivial=True,
+                            desc={'cfg': repr(cfg), 'prefix': repr(resolve_rel(seq)), 'mode': mode, 'packed_over': 'rel-alphabet',
                                   'letters': repr(alpha)}))
     return out, len(states)
 
@@ -968,18 +1030,33 @@ def cases(rng, tier):
     # (S) symmetry-reduced exhaustive exploration: every history of <= depth+1 letters over 4 one-shot tasks and the
     # 27-letter relative alphabet, one representative per implementation state (see impl_state_key)
     plain4 = [ONE, ONE, ONE, ONE]
-    d4 = 6 if not big else 8
+    d4 = 6 if not big else 9
     cs, n4 = symmetric_cases(plain4, d4, 'S-symmetric-4tasks', reps=1 if not big else 2)
+    out += cs
+    # the same exploration with a clock that moves in steps of 2^-22 s (0.24 us): the clock sits 1, 2, ... ticks
+    # before due times, all floats exact (a release "within the timer resolution" shows here)
+    cs, nf = symmetric_cases(plain4, 5 if not big else 7, 'S-symmetric-4tasks-fine-clock', reps=1, mode='fine')
+    out += cs
+    for cfgb, ops, mode in boundary_histories():
+        out.append(mk_case('F-boundary-sub-microsecond', cfgb, ops, mode, 1))
+    cs, nf2 = symmetric_cases(plain4, 4 if not big else 6, 'S-symmetric-4tasks-fine-clock', reps=1, mode='finer')
     out += cs
     mixed3 = [ONE, (('one',), True, ()), ONE, (('one',), False, (), (('suspend', 0),))]
     d3 = 4 if not big else 6
     cs, n3 = symmetric_cases(mixed3, d3, 'S-symmetric-raising+acting', reps=1)
     out += cs
+    note3 = ''
+    if big:
+        defer3 = [(('one',), False, ((0, True, ()), (1, False, ()))), (('one',), True, ((2, False, ((3, False, ()),)),)), ONE]
+        cs, n5 = symmetric_cases(defer3, 5, 'S-symmetric-deferring', reps=1)
+        out += cs
+        note3 = '; to length 6 over {deferring [raising fn, fn], raising and deferring a spawning fn, plain}: %d states x 21 letters' % n5
     EXHAUSTIVE_NOTE['S'] = ('every history of length <= %d over 4 interchangeable one-shot tasks and the 27 letters {install_task(when=now+1|now+2), '
                             'install_task(delta=1), install_task(), suspend, resume} x task + {advance 1, poll, run_once}, followed by a flush, '
                             'explored breadth-first on the IMPLEMENTATION: %d distinct states (heap array layout, counters up to order, flags, '
                             'task times relative to the clock, up to task renaming) each extended by all 27 letters; the same to length %d over '
-                            '{plain, raising, plain, plain-with-callback-suspending-task-0}: %d states x 27 letters' % (d4 + 1, n4, d3 + 1, n3))
+                            '{plain, raising, plain, plain-with-callback-suspending-task-0}: %d states x 27 letters%s; the 4-task exploration again to length %d with a '
+                            'clock unit of 2^-22 s (%d states)' % (d4 + 1, n4, d3 + 1, n3, note3, (5 if not big else 7) + 1, nf))
     # (C) callbacks that install / re-install / suspend / resume themselves or the other task
     alpha2 = alphabet(2)
     single = [()] + [(a,) for a in act_alphabet(2)]
@@ -1012,9 +1089,9 @@ def cases(rng, tier):
             % ((4, ' plus 30% of length 5', 5, 'every prelude of the list x every letter') if big else
                (3, ' plus a quarter of length 4', 4, 'the 5 multi-task preludes and 8% of the one-letter preludes x every letter')))
     # (A) random long histories
-    for _ in range(40 if tier != 'thorough' else 600):
+    for n in range(40 if tier != 'thorough' else 600):
         cfg, ops = random_history_A(rng)
-        out.append(mk_case('A-random-200', cfg, ops, 'int', 1))
+        out.append(mk_case('A-random-200', cfg, ops, 'int' if n % 2 == 0 else 'fine', 1))
     # (B) recurring
     want = 200 if tier != 'thorough' else 2000
     for epoch, mode, kind in ((False, 'tick', 'B-recurring-tick'), (True, 'slot', 'B-recurring-epoch-slot')):
@@ -1030,7 +1107,7 @@ def cases(rng, tier):
     for epoch, mode in ((False, 'tick'), (True, 'slot')):
         for ivms in IV_GRID_MS:
             iv = int(ivms * TICKS_PER_S / 1000)
-            for off in (0, iv // 3, iv - 3000):
+            for off in (0, iv // 3, iv - 3000, iv + iv // 3, 3 * iv + 600):
                 for b in (BASES_EPOCH if epoch else BASES_SMALL):
                     base = b * TICKS_PER_S + 777
                     cfg = [(('rec', iv, off), False, ())]
@@ -1075,7 +1152,7 @@ def has_acts(cfg, ops):
 def check_history(cfg, ops, mode, fails, stats):
     """Weakest reading of C14 on one history.  Bookkeeping (not a scheduler): which task is pending
     with which due time and installation rank, which deferred functions were submitted."""
-    im = Impl(cfg, float if mode == 'int' else tf_tick)
+    im = Impl(cfg, tf_of(mode))
     pending = {}            # i -> [due or None, rank]
     rank = itertools.count()
     last_fire_at = {}
@@ -1297,8 +1374,11 @@ def direct(rng, tier, focus=()):
     return fails, {'evaluations': stats['evaluations'], 'distinct_nontrivial': len(stats['nontrivial']),
                    'exhaustive': True,
                    'exhaustive_domain': 'all op sequences of length <= %d over the 15-letter alphabet on 2 one-shot tasks; every raising '
-                                        'subset of flat deferred batches of <= 6 and of all forests of <= %d functions'
-                                        % ((4, 5) if tier == 'thorough' else (3, 4)),
+                                        'subset of flat deferred batches of <= 6 and of all forests of <= %d functions; every state of the '
+                                        'implementation reachable in <= %d letters of the 27-letter relative alphabet over 4 one-shot tasks (up to task '
+                                        'renaming / time translation) x every letter, and the same to 5 letters with a 2^-22 s clock unit; every pair of '
+                                        'single-action callbacks over 2 tasks x 3 preludes x 3 drivers'
+                                        % ((4, 5, 7) if tier == 'thorough' else (3, 4, 6)),
                    'samples': samples}
 
 
@@ -1330,9 +1410,11 @@ def _direct(rng, tier, focus, fails, stats, samples):
             if L == 3 and not big and rng.random() < 0.7:
                 continue
             check_history(cfg3, list(seq), 'int', fails, stats)
-    for _ in range(150 if not big else 3000):
+    for n in range(150 if not big else 3000):
         cfg, ops = random_history_A(rng)
-        check_history(cfg, ops, 'int', fails, stats)
+        check_history(cfg, ops, 'int' if n % 2 == 0 else 'fine', fails, stats)
+    for cfgb, ops, mode in boundary_histories():
+        check_history(cfgb, ops, mode, fails, stats)
     samples.append({'direct': 'pending-set bookkeeping over random histories of length 200', 'alphabet': repr(alpha)})
     # 3b. symmetry-reduced exploration of 4 tasks (every state reachable in <= 6 letters, then every letter)
     plain4 = [ONE, ONE, ONE, ONE]
@@ -1340,6 +1422,9 @@ def _direct(rng, tier, focus, fails, stats, samples):
     for key, seqs in explore(plain4, 6 if not big else 7).items():
         for o in ralpha:
             check_history(plain4, resolve_rel(list(seqs[0]) + [o]), 'int', fails, stats)
+    for key, seqs in explore(plain4, 5, mode='fine').items():
+        for o in ralpha:
+            check_history(plain4, resolve_rel(list(seqs[0]) + [o]), 'fine', fails, stats)
     # 3c. callbacks with scheduling actions; the recorded finding first
     selfsusp = [(('rec', 3 * TICKS_PER_S, 0), False, (), (('suspend', 0),))]
     check_history(selfsusp, [('advance', 777, 777), ('reinstall', 0), ('todue',), ('poll',), ('todue',), ('poll',)], 'tick', fails, stats)
